@@ -312,9 +312,20 @@ def eval_spec(ip, st, env, text, old=None):
         parts = split_implies(text)
         terms = []
         for p in parts:
+            if terms and (terms[-1].s == "false" or ip.known(s, NOT(terms[-1]))):
+                # the antecedent is refuted on this path: the consequent is not evaluated (it may be ill-typed here)
+                terms.append(TRUE)
+                break
             node = ip.contracts_parse(p)
-            v = ip.ev1(node, s)
-            terms.append(ip.truth(s, v))
+            try:
+                v = ip.ev1(node, s)
+                terms.append(ip.truth(s, v))
+            except Exception as e:
+                if not terms or type(e).__name__ not in ("Unsupported", "KeyError", "IndexError", "AttributeError"):
+                    raise
+                # a consequent that is ill-typed on this path: an unknown truth value (provable only if the antecedent
+                # is refuted; gives no information when assumed)
+                terms.append(ip.reg.new("illtyped", "Bool"))
         res = terms[-1]
         for t in reversed(terms[:-1]):
             res = IMP(t, res)
@@ -529,8 +540,11 @@ def do_havoc(ip, st, case, env):
             cell = st.heap[base.cid]
             cur = cell.fields.get(field)
             if cur is None:
-                cs = ip.contracts.classes[cell.cls]
-                nv = ip.make(cs.fields[field], "%s.%s" % (cell.cls, field), st)
+                cs = ip.contracts.classes.get(cell.cls)
+                if cs is not None and field in cs.fields:
+                    nv = ip.make(cs.fields[field], "%s.%s" % (cell.cls, field), st)
+                else:
+                    nv = Opaque(ip.reg.new("%s.%s" % (cell.cls, field), "Unk"))     # a value nothing is known about
             elif isinstance(cur, Ref):
                 # the field may be rebound to a new object: fresh cell of the same shape
                 cs = ip.contracts.classes.get(cell.cls)
